@@ -264,3 +264,20 @@ def describe(path, v, body=None, depth=0):
     if k == 'agg':
         return '%s{%s}' % (v[3] or v[2].split('::')[-1] or 'tuple', ', '.join(d(x) for x in v[5]))
     return show(v, body)
+
+
+def upvar_of(body, v):
+    """Name of the closure capture a value/place expression denotes (by-value or by-reference environments)."""
+    if body.kind != 'Closure':
+        return None
+    idx = None
+    if v[0] == 'fieldv' and v[1] == ('param', 0, 1) and v[2].isdigit():
+        idx = int(v[2])
+    elif v[0] == 'load' and v[1][0] == 'field' and v[1][1] == ('deref', ('param', 0, 1)) and v[1][2].isdigit():
+        idx = int(v[1][2])
+    elif v[0] == 'field' and v[1] in (('deref', ('param', 0, 1)), ('local', 0, 1)) and v[2].isdigit():
+        idx = int(v[2])
+    if idx is None:
+        return None
+    nm = body.upvar_names.get(idx)
+    return nm[0] if nm else None
